@@ -360,6 +360,8 @@ fn slice_offset() -> usize {
 /// # Safety:
 /// The pointer must point to a currently allocated [`WakerList`].
 unsafe fn drop_inner(p: *mut WakerHeader, capacity: usize) {
+    #[cfg(futures_buffered_verif)]
+    crate::verif::probe_release(p as usize);
     let layout = WakerList::layout(capacity);
 
     // SAFETY: the pointer points to an aligned and init instance of `WakerHeader`
@@ -433,6 +435,8 @@ impl WakerList {
             );
         }
 
+        #[cfg(futures_buffered_verif)]
+        crate::verif::probe_alloc(meta as usize);
         Self {
             ptr: unsafe { NonNull::new_unchecked(meta) },
             phantom: PhantomData,
